@@ -400,3 +400,25 @@ Proof.
   intros W R G. destruct (cpy_sound n W (zero_val n) r (wtb_zero n W) R) as (A & B).
   split; [exact A|]. apply (B false G). apply emp_zero; exact W.
 Qed.
+
+(* the same history through the method models (form *T for source and destination) *)
+Theorem run_cycles_sound n : wfn n = true -> forall srcs d0, wtb n d0 = true ->
+  Forall (fun s => wtb n s = true /\ gov n s = true) srcs ->
+  exists st, run_cycles n d0 srcs = Some st /\
+    List.length st = List.length srcs /\
+    Forall (fun p => emp true (fst p) = true) st /\
+    Forall2 (fun p s => canon true (snd p) = canon true s) st srcs.
+Proof.
+  intros W. induction srcs as [|a r IH]; intros d0 D F.
+  - exists []. repeat split; constructor.
+  - inversion F as [|a' r' (Ta & Ga) Fr]; subst.
+    destruct (reset_sound n W d0 D) as (RT & RE).
+    destruct (cycle_one n d0 a W D Ta Ga) as (T1 & C1).
+    destruct (IH (cycle n d0 a) T1 Fr) as (st & E & L & Z & Q).
+    exists ((reset n d0, cycle n d0 a) :: st).
+    cbn [run_cycles reset_method copyto_method src_value]. fold (cycle n d0 a). rewrite E.
+    repeat split.
+    + cbn [List.length]. rewrite L. reflexivity.
+    + constructor; [exact RE|exact Z].
+    + constructor; [exact C1|exact Q].
+Qed.
